@@ -333,6 +333,9 @@ def make_machine(ctx):
                        ('at' not in f or f['kind'] in FR.INSERTS or prog['steps'][f['at']]['t'] in ('in', 'out'))]
                 if top:
                     faults = [top[fault % len(top)]]
+                    second = top[(fault * 7 + 3) % len(top)]
+                    if data.draw(st.booleans()) and FR.compatible(faults[0], second):
+                        faults.append(second)
             else:
                 # interrupt raised by an interception running on a pool thread
                 workers = [s for s in prog['steps'] if s['t'] == 'threads']
